@@ -53,10 +53,12 @@ Proof.
     rewrite (Z.gcd_comm b), (Z.gcd_rem a b Eb). apply Z.gcd_comm.
 Qed.
 
-Theorem rgcd_spec a b : in_i64 b = true -> rgcd a b = of_option (fit (Z.gcd a b)).
+Theorem ugcd_spec a b : 0 <= b < 2 ^ 64 -> ugcd a b = Ok (Z.gcd a b) \/ exists g, ugcd a b = Ok g /\ Z.abs g = Z.gcd a b.
 Proof.
-  intros Hb. unfold rgcd. destruct (gcd_loop_i64 a b Hb) as [g Hg]. rewrite Hg. simpl.
-  unfold checked_abs. now rewrite (gcd_loop_value _ _ _ _ Hg).
+  intros Hb. right. destruct (gcd_loop_terminates 64 a b) as [g Hg].
+  - change (2 ^ Z.of_nat 64) with (2 ^ 64). lia.
+  - exists g. split; [|now apply (gcd_loop_value _ _ _ _ Hg)].
+    unfold ugcd. eapply gcd_loop_mono; [exact Hg|]. unfold gcd_fuel. lia.
 Qed.
 
 (** number of rounds (the tick count of the loop) *)
